@@ -2,6 +2,7 @@ package base
 
 import (
 	"fmt"
+	"slices"
 )
 
 // String utility functions
@@ -139,4 +140,45 @@ func GenId() string {
 	defaultGenId.count++
 
 	return id
+}
+
+// ExpireVariants drops the variants of a union that were last seen in a
+// round other than the given ones (variants without a round tag stay).
+func (t *T) ExpireVariants(rounds ...string) {
+	if t == nil || t.tType != UNION {
+		return
+	}
+
+	kept := t.variants[:0:0]
+
+	for _, variant := range t.variants {
+		if variant.Round == "" || slices.Contains(rounds, variant.Round) {
+			kept = append(kept, variant)
+		}
+	}
+
+	t.variants = kept
+}
+
+// TouchVariant marks the variant of a union that has the class of valueT as
+// seen in the given round.
+func (t *T) TouchVariant(valueT *T, round string) {
+	if t == nil || valueT == nil || t.tType != UNION {
+		return
+	}
+
+	values := []T{*valueT}
+	if valueT.tType == UNION {
+		values = valueT.variants
+	}
+
+	for _, value := range values {
+		for i := range t.variants {
+			// (a variant without a round is the default's own class: it stays that)
+			if t.variants[i].Round != "" && t.variants[i].tType == value.tType &&
+				t.variants[i].objectClass == value.objectClass {
+				t.variants[i].Round = round
+			}
+		}
+	}
 }
